@@ -1,9 +1,14 @@
 /-
 C10 — the text front-end's four solve methods agree (model: `Ezpz/Model/TextMethods.lean`).
 
-The front-end gives every constraint priority 0 (`requests`), so every call is a single-level solve
-and known finding F10 (an analysis failure at a non-first level changes the returned level) cannot
-occur here: the statements below carry no hypothesis about the analysis.
+`to_constraint_system` gives every constraint priority 0 (`let priority = 0;`, regenerated as
+`Gen.TEXT_PRIORITY` and pinned by `text_priority_zero`), so every call on a system AS BUILT is a
+single-level solve and known finding F10 (an analysis failure at a non-first level changes the
+returned level) cannot occur: the statements below carry no hypothesis about the analysis.
+SCOPE: the model's `ConstraintSystem.constraints` is a list of constraints without priorities; the
+Rust field `pub constraints: Vec<ConstraintRequest>` is public, so a caller can push a request of
+another priority into a built system before solving — such a modified system is outside the model
+(it is the library-level multi-priority solve of C03 / C10, where F10 applies).
 
 * `requests_priority_zero`, `text_solve_one_level`: the library call of every method is one
   `solveInner` on the whole enumerated list.
@@ -15,8 +20,9 @@ occur here: the statements below carry no hypothesis about the analysis.
 * `text_plain_fails_then_analysis_fails`: when the plain methods fail, the analysing one fails the
   same way.
 * `text_analysis_only_adds_failure`: when `solve_with_config` succeeds with `t`,
-  `solve_with_config_analysis` either succeeds with the very same `t` (plus the analysis), or fails
-  (the failure of the analysis step, `runAnalysis`), or that step panics.
+  `solve_with_config_analysis` either succeeds with the very same `t` (plus the analysis), or the
+  Newton run succeeds and `runAnalysis` on its last Jacobian fails, and that error is what the method
+  returns (or unwinds with, if it is a panic).
 * `text_analysis_ok_then_plain_ok`: when `solve_with_config_analysis` succeeds with `(u, t)`,
   `solve_with_config` succeeds with `t` and `solve_no_metadata` with the same iteration count,
   unsatisfied list, warnings, priority and the final values `t` labels.
@@ -114,13 +120,17 @@ theorem lib_plain_error (cs : ConstraintSystem α) (cfg : Config α) (solve : Li
   C10.plain_fails_then_analysis_fails _ _ _ _ _ _ h
 
 /-- Library level, all requests at priority 0: a plain success with `o` becomes, with analysis, the
-same outcome with an under-constrained list attached, or a failure. -/
+same outcome with an under-constrained list attached, or a failure — and that failure is the failure
+of the analysis step itself: with at least one constraint, the Newton run of the single level
+succeeds (`nr`) and `runAnalysis` on its last Jacobian returns the reported error. -/
 theorem lib_plain_ok (cs : ConstraintSystem α) (cfg : Config α) (solve : LinSolve α)
     (svd : Svd α) (o : Outcome α)
     (h : solveWithPriority (requests cs) cs.vars.variables cfg solve none = .ok o) :
     (∃ us, solveWithPriority (requests cs) cs.vars.variables cfg solve (some svd) =
         .ok { o with underconstrained := some us }) ∨
-    (∃ f, solveWithPriority (requests cs) cs.vars.variables cfg solve (some svd) = .error f) := by
+    (∃ f nr, solveWithPriority (requests cs) cs.vars.variables cfg solve (some svd) = .error f ∧
+      newton (enumerate (requests cs)) cfg (solve 0) (cs.vars.variables.map (·.2)) = .ok nr ∧
+      runAnalysis (some (svd 0)) nr.lastJac cs.vars.variables.length = .error f.error) := by
   by_cases hne : cs.constraints = []
   · left
     have hr : requests cs = [] := by simp [requests, hne]
@@ -131,9 +141,9 @@ theorem lib_plain_ok (cs : ConstraintSystem α) (cfg : Config α) (solve : LinSo
     subst h
     exact ⟨_, rfl⟩
   · rw [text_solve_one_level cs cfg solve _ hne] at h ⊢
-    rcases C10.level_plain_ok _ _ _ _ (svd 0) o h with ⟨us, hus⟩ | ⟨f, _, hf, _⟩
+    rcases C10.level_plain_ok _ _ _ _ (svd 0) o h with ⟨us, hus⟩ | ⟨f, nr, hf, hn, hra⟩
     · exact Or.inl ⟨us, hus⟩
-    · exact Or.inr ⟨f, hf⟩
+    · exact Or.inr ⟨f, nr, hf, hn, hra⟩
 
 /-- Library level, all requests at priority 0: a success with analysis is a plain success with the
 same outcome (analysis removed). -/
@@ -170,16 +180,20 @@ theorem text_plain_fails_then_analysis_fails (p : Problem α) (cs : ConstraintSy
     simp only at h
     cases hlab : labelOutcome p o.finalValues <;> simp [hlab, Except.map] at h
 
-/-- **Requesting the analysis can only add a failure (text front-end, unconditional).**  When
-`solve_with_config` succeeds with `t`, `solve_with_config_analysis` either succeeds with the same
-`t` and an under-constrained list, or returns a failure, or panics (an analysis step that panics);
-it never returns a different labelled outcome. -/
+/-- **Requesting the analysis can only add a failure of the analysis step itself (text front-end).**
+When `solve_with_config` succeeds with `t`, `solve_with_config_analysis` either succeeds with the same
+`t` and an under-constrained list, or fails / panics **in the analysis step**: the Newton run of the
+single level succeeds (`nr`), `runAnalysis` on its last Jacobian returns an error `e`, and the method
+returns `Err` with that error (or unwinds, if `e` is a panic).  It never returns a different labelled
+outcome, and never a failure of the solve itself. -/
 theorem text_analysis_only_adds_failure (p : Problem α) (cs : ConstraintSystem α)
     (cfg : Config α) (solve : LinSolve α) (svd : Svd α) (t : TextOutcome α)
     (h : solveWithConfig p cs cfg solve = some (.ok t)) :
     (∃ us, solveWithConfigAnalysis p cs cfg solve svd = some (.ok (some us, t))) ∨
-    (∃ f, solveWithConfigAnalysis p cs cfg solve svd = some (.error f)) ∨
-    solveWithConfigAnalysis p cs cfg solve svd = none := by
+    (∃ f nr, newton (enumerate (requests cs)) cfg (solve 0) (cs.vars.variables.map (·.2)) = .ok nr ∧
+      runAnalysis (some (svd 0)) nr.lastJac cs.vars.variables.length = .error f.error ∧
+      solveWithConfigAnalysis p cs cfg solve svd =
+        if f.error.isPanic then none else some (.error f)) := by
   unfold solveWithConfig solveWithConfigInner solveNoMetadataInner liftLib at h
   unfold solveWithConfigAnalysis solveWithConfigInner solveNoMetadataInner liftLib
   cases hl : solveWithPriority (requests cs) cs.vars.variables cfg solve none with
@@ -193,7 +207,7 @@ theorem text_analysis_only_adds_failure (p : Problem α) (cs : ConstraintSystem 
     | none => simp [hlab] at h
     | some l =>
       simp only [hlab, Option.map_some, Except.map, Option.some.injEq, Except.ok.injEq] at h
-      rcases lib_plain_ok cs cfg solve svd o hl with ⟨us, hus⟩ | ⟨f, hf⟩
+      rcases lib_plain_ok cs cfg solve svd o hl with ⟨us, hus⟩ | ⟨f, nr, hf, hn, hra⟩
       · left
         refine ⟨us, ?_⟩
         rw [hus]
@@ -201,10 +215,9 @@ theorem text_analysis_only_adds_failure (p : Problem α) (cs : ConstraintSystem 
         rw [← h]
         rfl
       · right
+        refine ⟨f, nr, hn, hra, ?_⟩
         rw [hf]
-        cases hp : f.error.isPanic
-        · left; exact ⟨f, by simp [hp]⟩
-        · right; simp [hp]
+        cases hp : f.error.isPanic <;> simp [hp]
 
 /-- **A success with analysis is the plain success.**  When `solve_with_config_analysis` succeeds
 with `(u, t)`, `solve_with_config` succeeds with the very same `t`, and `solve_no_metadata` succeeds
@@ -257,14 +270,11 @@ end Ezpz.Text
 
 namespace Ezpz.Text
 
-/-- **The tie of `Model/TextMethods.lean` to the source**: the call structure of the six functions,
-as regenerated from `kcl-ezpz/src/textual/executor.rs` on every run by `tools/extract.py`
-(`Gen.TEXT_METHODS`), is the one the model's definitions follow — `solve_no_metadata` calls the
-library's `solve`; `solve_no_metadata_inner` calls `solve_with_priority_inner`; `solve` calls
-`solve_with_config` with `Default::default()`; `solve_with_config_analysis` / `solve_with_config`
-call `solve_with_config_inner` at `FreedomAnalysis` / `NoAnalysis`; `solve_with_config_inner::<A>`
-calls `solve_no_metadata_inner::<A>`.  A change of any of these calls changes the generated constant
-and breaks this theorem. -/
+/-- **The tie of `Model/TextMethods.lean` to the source, part 1**: the call structure of the six
+functions, as regenerated from `kcl-ezpz/src/textual/executor.rs` on every run by `tools/extract.py`
+(`Gen.TEXT_METHODS`: method, the one solve function it calls, its type argument).  This part only
+sees callee names and type arguments; arguments and anything done around the call are pinned by
+`text_method_bodies` below. -/
 theorem text_methods_shape : Gen.TEXT_METHODS =
     [("solve_no_metadata", "crate::solve", ""),
      ("solve_no_metadata_inner", "crate::solve_with_priority_inner", ""),
@@ -272,6 +282,22 @@ theorem text_methods_shape : Gen.TEXT_METHODS =
      ("solve_with_config_analysis", "self.solve_with_config_inner", "FreedomAnalysis"),
      ("solve_with_config", "self.solve_with_config_inner", "NoAnalysis"),
      ("solve_with_config_inner", "self.solve_no_metadata_inner", "A")] := by decide
+
+/-- **Part 2: the bodies themselves.**  `Gen.TEXT_METHOD_BODIES` is the source text of each method
+body with whitespace and comments removed (the long `solve_with_config_inner` as a SHA-256 of that
+text), regenerated on every run.  Any edit of these functions — another argument, a modified
+configuration, a result post-processed, an early return, a swapped coordinate in the labelling —
+changes the constant and breaks this theorem; a harmless respelling does too, and is then decided by
+the search on the real code (`oracle_c10`, the CLI comparison, corr-text's labelled results). -/
+theorem text_method_bodies : Gen.TEXT_METHOD_BODIES =
+    [("solve_no_metadata", "{crate::solve(&self.constraints,self.initial_guesses.variables(),config)"),
+     ("solve_no_metadata_inner", "{crate::solve_with_priority_inner(&self.constraints,self.initial_guesses.variables(),config,)"),
+     ("solve", "{self.solve_with_config(Default::default())"),
+     ("solve_with_config_analysis", "{let(analysis,outcome)=self.solve_with_config_inner::<FreedomAnalysis>(config)?;Ok(OutcomeAnalysis{analysis,outcome})"),
+     ("solve_with_config", "{let(NoAnalysis,outcome)=self.solve_with_config_inner::<NoAnalysis>(config)?;Ok(outcome)"),
+     ("solve_with_config_inner", "sha256:70399b0034c0d53614af81a686e40a64fc9ba984b22747e3687bb0a0df76bea3")] := by
+  decide
+
 
 end Ezpz.Text
 
@@ -349,5 +375,13 @@ theorem text_methods_never_panic (p : Problem α) (cs : ConstraintSystem α) (cf
     cases h : solveWithConfigInner p cs Config.default solve none with
     | none => exact absurd h this
     | some r => simp
+
+/-- **Part 3: every request of a built system has priority 0** in the source too:
+`to_constraint_system` has `let priority = 0;`, uses it in its only `ConstraintRequest::new(c,
+priority)`, and constructs requests nowhere else (checked by the translator); the model's
+`requests cs = cs.constraints.map (·, 0)` uses the same number. -/
+theorem text_priority_zero : Gen.TEXT_PRIORITY = 0 ∧
+    ∀ (cs : ConstraintSystem α), ∀ r ∈ requests cs, r.2 = Gen.TEXT_PRIORITY :=
+  ⟨rfl, fun cs => requests_priority_zero cs⟩
 
 end Ezpz.Text
